@@ -1118,6 +1118,17 @@ def _phi_copies(stmts):
     return stmts
 
 
+PURE_LIB_PREFIXES = ("np.", "pd.", "itertools.", "linalg.", "math.", "functools.", "operator.")
+IMPURE_LIB = {"fill_diagonal", "put", "place", "copyto", "putmask", "seterr", "set_option", "shuffle", "seed", "save", "savetxt", "load",
+              "read_csv", "reset_option", "set_printoptions"}
+
+
+def _pure_library_call(c):
+    """numpy / pandas / itertools constructors and functions: they build new values and do not touch program objects"""
+    d = dotted(c.func) or ""
+    return d.startswith(PURE_LIB_PREFIXES) and d.split(".")[-1] not in IMPURE_LIB and ".random." not in d
+
+
 def _effects(s, local_names):
     """(reads, writes, attr reads, attr writes, heap write?, call?, control?) of a statement, conservatively"""
     R, W, AR, AW = set(), set(), set(), set()
@@ -1129,7 +1140,7 @@ def _effects(s, local_names):
             (AW if isinstance(n.ctx, (ast.Store, ast.Del)) else AR).add(n.attr)
         elif isinstance(n, ast.Subscript) and isinstance(n.ctx, (ast.Store, ast.Del)):
             heap = True
-        elif isinstance(n, ast.Call) and not (isinstance(n.func, ast.Name) and n.func.id in PURE_BUILTINS):
+        elif isinstance(n, ast.Call) and not (isinstance(n.func, ast.Name) and n.func.id in PURE_BUILTINS) and not _pure_library_call(n):
             call = True
         elif isinstance(n, (ast.Return, ast.Raise, ast.Break, ast.Continue, ast.Yield, ast.YieldFrom, ast.Await, ast.Try, ast.With,
                             ast.For, ast.While, ast.FunctionDef, ast.ClassDef, ast.Lambda, ast.Global, ast.Nonlocal, ast.Import, ast.ImportFrom, ast.Assert, ast.AugAssign)):
